@@ -107,6 +107,43 @@ const (
 	SegRune = segRune
 )
 
+// ReverseMapRangesIn returns a MapOrderHook that explores every range over a native Go map executed inside a function
+// whose name contains one of the given substrings in BOTH insertion order and reverse order (Go's map iteration order
+// is unspecified; the engine's own order is insertion order, which would hide a dependence on it).
+func ReverseMapRangesIn(substrs ...string) func(ex *Exec, entries []*mapEntry) []*mapEntry {
+	return func(ex *Exec, entries []*mapEntry) []*mapEntry {
+		if ex.top == nil || ex.top.fn == nil {
+			return entries
+		}
+		hit := false
+		for _, s := range substrs {
+			if containsStr(ex.top.fn.String(), s) {
+				hit = true
+			}
+		}
+		var live []*mapEntry
+		for _, e := range entries {
+			if !e.dead {
+				live = append(live, e)
+			}
+		}
+		if !hit || len(live) < 2 {
+			return entries
+		}
+		ex.permN++
+		t := ex.Input(fmt.Sprintf("maporder_%d", ex.permN), 64)
+		ex.Assume(ex.tt.Cmp(OpULt, t, ex.tt.BV(2, 64)))
+		if ex.concretize(t, 2, "map iteration order (forward / reverse)") == 0 {
+			return entries
+		}
+		out := make([]*mapEntry, 0, len(live))
+		for i := len(live) - 1; i >= 0; i-- {
+			out = append(out, live[i])
+		}
+		return out
+	}
+}
+
 // PermuteInMapsKeys returns a MapOrderHook that, inside x/exp/maps.Keys, forks over every permutation of the
 // entries (up to max live entries; beyond that the insertion order is kept).
 func PermuteInMapsKeys(max int) func(ex *Exec, entries []*mapEntry) []*mapEntry {
